@@ -202,7 +202,21 @@ func runC09(rep Rep, c C09Case) {
 				defer f.Close()
 				f.OnRecord = func(r *sim.Record, op *Op) { safetyMonitors(rep, r) }
 				op := &Op{K: OpReconcile, Refresh: 1, Perm: c.Perm, FaultAt: k, Fault: kind, Worker: true}
+				// the same faulted reconcile on a second clone, called directly: its return value tells
+				// whether the reconcile failed, independently of what the worker logs
+				var syncErr error
+				{
+					g := base.cloneSys()
+					direct := *op
+					direct.Worker = false
+					syncErr = g.Reconcile(&direct).Err
+					g.Close()
+				}
 				r := f.Reconcile(op)
+				if !r.Crashed && syncErr != nil && r.Requeues == 0 {
+					rep.Violate("requeue/error-not-requeued", "fault %s at call %d of %d (%s): the reconcile returns an error (%v) but the worker left the key's requeue counter at 0\n%s",
+						faultNames[kind], k, N, r0.Actions[k-1], syncErr, f.Transcript())
+				}
 				target := r0.Actions[k-1]
 				nontrivial := k >= firstWrite && writes >= 2
 				rep.Sub(fmt.Sprintf("%s|%d|%d|%d|%d", wfp, k, kind, c.SecondKind, c.SecondPos), nontrivial)
